@@ -72,6 +72,10 @@ namespace vh
         {
             close(fds[0]);
             struct rlimit rl; rl.rlim_cur = rl.rlim_max = 0; setrlimit(RLIMIT_CORE, &rl);
+            if (const char* mb = std::getenv("VH_MEM_MB"))
+            { // address space limit of the case (not usable with sanitizers, which reserve terabytes)
+                struct rlimit ml; ml.rlim_cur = ml.rlim_max = (rlim_t)std::atol(mb) * 1024 * 1024; setrlimit(RLIMIT_AS, &ml);
+            }
             std::string out = fn();
             size_t off = 0;
             while (off < out.size())
